@@ -13,6 +13,7 @@ import z3
 
 from jvc.lib import LIB as _L, model
 from jvc.symexec import (Contract, LOG, POW, FABS, PI, arith, b_and, make_sum, q_forall, to_z3)
+from . import common  # noqa: F401  (spec functions view3, ...)
 from jvc.values import (Arr, NameRef, Obj, Opaque, PyDict, PyList, Unsupported, fresh_arr, fresh_fn, fresh_int, fresh_name,
                         fresh_real, is_z3)
 
@@ -422,16 +423,16 @@ ENTRYWISE = {
 }
 LW_ENS = {
     # INF = the kernel's failure value when a LAPACK factorisation reports failure (make_AAinv -> INF, make_bBBinv -> -1/2(chi2 + INF))
-    "value-is-minus-half-chi2-plus-logdet-or-INF": f"result == INF or log_det_val == INF or (result == -0.5 * ({CHI2} + sum(log_(2 * pi * abs(self.Btmp[i, i])) for i in range(self.n_times))) and "
+    "value-is-minus-half-chi2-plus-logdet-or-INF": f"result == INF or result == -0.5 * ({CHI2} + INF) or (result == -0.5 * ({CHI2} + sum(log_(2 * pi * abs(self.Btmp[i, i])) for i in range(self.n_times))) and "
                                                    "all(lu_source(self.Btmp)[n, m] == self.B[n, m] for n in range(self.n_times) for m in range(self.n_times)))",
-    "Ainv-entrywise": "result == INF or log_det_val == INF or " + ENTRYWISE["Ainv"],
-    "b-entrywise": "result == INF or log_det_val == INF or " + ENTRYWISE["b"],
-    "B-entrywise": "result == INF or log_det_val == INF or " + ENTRYWISE["B"],
-    "Binv-entrywise": "result == INF or log_det_val == INF or " + ENTRYWISE["Binv"],
+    "Ainv-entrywise": "result == INF or " + ENTRYWISE["Ainv"],
+    "b-entrywise": "result == INF or " + ENTRYWISE["b"],
+    "B-entrywise": "result == INF or " + ENTRYWISE["B"],
+    "Binv-entrywise": "result == INF or " + ENTRYWISE["Binv"],
     "modifies-only-scratch": frame_clause(LW_FIELDS),
 }
 LW_ENS_1 = dict(LW_ENS, **{
-    "a-solves-the-normal-equations": "result == INF or log_det_val == INF or (all(solve_source(self.a)[0][i, j] == " + AINV + " for i in range(self.n_linear) for j in range(self.n_linear)) and "
+    "a-solves-the-normal-equations": "result == INF or (all(solve_source(self.a)[0][i, j] == " + AINV + " for i in range(self.n_linear) for j in range(self.n_linear)) and "
                                      "all(solve_source(self.a)[1][i] == " + RHS + " for i in range(self.n_linear)))",
 })
 LW_INV = {4: {"rhs-partial": "all(self.a[i] == sum(self.M_T[i, n2] * self.s_ivar[n2] * self.rv[n2] for n2 in range(_it)) for i in range(self.n_linear))",
@@ -447,3 +448,275 @@ CONTRACTS += likelihood_worker
 LW_CALLEES = {KC + "make_AAinv": make_AAinv_callee, "CJokerHelper.make_AAinv": make_AAinv_callee,
               KC + "make_bBBinv": make_bBBinv_callee, "CJokerHelper.make_bBBinv": make_bBBinv_callee}
 CALLEES.update(LW_CALLEES)
+
+
+def _lw_callee(flag_contracts):
+    c0 = flag_contracts[1]      # flag == 1 has the superset of clauses; the flag-specific one is guarded
+    ens = dict(flag_contracts[0].ensures)
+    ens["a-solves-the-normal-equations"] = "implies(make_aAinv == 1, " + flag_contracts[1].ensures["a-solves-the-normal-equations"] + ")"
+    tmp = Contract(c0.qual, c0.prop, requires=list(c0.requires), ensures=ens)
+    return _method_callee(tmp, LW_FIELDS, "real")
+
+
+likelihood_worker_callee = _lw_callee(likelihood_worker)
+BATCH_CALLEES = {KC + "likelihood_worker": likelihood_worker_callee, "CJokerHelper.likelihood_worker": likelihood_worker_callee,
+                 K + "get_ivar": get_ivar_callee}
+
+
+# =======================================================================================================================================
+# batch_marginal_ln_likelihood(chunk): per-iteration contract, proved for an arbitrary iteration started from ARBITRARY scratch state
+def chunk_param(ex, path, name):
+    a = fresh_arr("chunk", 2, "real", [z3.Int("n_samples"), 5])
+    path.assume(a.shape[0] >= 0)
+    return a
+
+
+def pow_axioms():
+    x, a = z3.Real("x!pw"), z3.Real("a!pw")
+    return [z3.ForAll([x, a], z3.Implies(x > 0, POW(x, a) > 0), patterns=[POW(x, a)])]
+
+
+def AXIOMS(c):
+    return pow_axioms() + [PI > 3, PI < 4]
+
+
+ROW_OK = ("all(chunk[r, 0] > 0 and 0 <= chunk[r, 1] and chunk[r, 1] < 1 and chunk[r, 4] >= 0 for r in range(chunk.shape[0]))")
+HELPER_OK = ["all(self.ivar[k] > 0 for k in range(self.n_times))", "all(self.Lambda[i] > 0 for i in range(1, self.n_linear))",
+             "self.P0 > 0", "self.sigma_K0 > 0", "self.max_K > 0", "implies(self.fixed_K_prior != 0, self.Lambda[0] > 0)"]
+K_RULE = "min(self.max_K * self.max_K, self.sigma_K0 * self.sigma_K0 / (1 - chunk[_it, 1] * chunk[_it, 1]) * pow_(chunk[_it, 0] / self.P0, -2 / 3))"
+ITER_SETUP = {
+    "K-column-is-the-unit-Keplerian-curve-of-this-row": "all(self.M_T[0, k] == 1 * rvu_(self.t[k], chunk[_it, 0], chunk[_it, 1], chunk[_it, 2], chunk[_it, 3], self.t0) "
+                                                        "for k in range(self.n_times))",
+    "trend-rows-untouched": "all(self.M_T[i, k] == head(self).M_T[i, k] for i in range(1, self.n_linear) for k in range(self.n_times))",
+    "weights-are-jitter-inflated": "all(self.s_ivar[k] == self.ivar[k] / (1 + chunk[_it, 4] * chunk[_it, 4] * self.ivar[k]) for k in range(self.n_times))",
+    "K-variance-rule-with-cap": f"implies(self.fixed_K_prior == 0, self.Lambda[0] == {K_RULE}) and implies(self.fixed_K_prior != 0, self.Lambda[0] == head(self).Lambda[0])",
+    "other-prior-variances-untouched": "all(self.Lambda[i] == head(self).Lambda[i] for i in range(1, self.n_linear + self.n_offsets))",
+    "immutable-fields-untouched": " and ".join(f"same_array(self.{f}, head(self).{f})" for f in IMMUTABLE),
+}
+
+
+def _lw_value(v):
+    out = {}
+    for k_, t_ in LW_ENS.items():
+        if k_ == "modifies-only-scratch":
+            continue
+        out[k_] = t_.replace("result", v)
+    return out
+
+
+bml = Contract(
+    KC + "batch_marginal_ln_likelihood", PROPERTY, params={"self": helper_self, "chunk": chunk_param},
+    requires=[ROW_OK] + HELPER_OK,
+    invariants={1: {"helper-stays-well-formed": " and ".join(HELPER_OK), "length": "len(ll) == chunk.shape[0]"}},
+    body_ensures={1: {**ITER_SETUP, **_lw_value("ll[_it]"),
+                      "earlier-values-kept": "all(ll[q] == head(ll)[q] for q in range(chunk.shape[0]) if q != _it)"}},
+    ensures={"one-value-per-row": "len(result) == chunk.shape[0]"})
+bml.strict_defined = True
+CONTRACTS.append(bml)
+CALLEES.update(BATCH_CALLEES)
+
+
+# =======================================================================================================================================
+# batch_get_posterior_samples(chunk, n_linear_samples_per, rng)
+def rng_obj(ex, path, name):
+    return Obj("Generator", {"name": name}, ident=name)
+
+
+@model("Generator.multivariate_normal", doc="rng.multivariate_normal(mean, cov, size=k): a k x len(mean) array of draws from N(mean, cov) "
+                                            "(that the draws follow that law is numpy's contract, not decided); one trace event")
+def _mvn(ex, path, args, kwargs, node, fn):
+    rng, mean, cov = args[0], args[1], args[2]
+    size = kwargs.get("size", args[3] if len(args) > 3 else None)
+    out = fresh_arr("mvn_draws", 2, "real", [size, mean.shape[0]])
+    path.ghost.setdefault("rng_trace", []).append({"gen": rng.ident, "kind": "multivariate_normal", "mean": mean, "cov": cov, "size": size,
+                                                   "value": out, "line": node.lineno})
+    return out
+
+
+@model("numpy.linalg.inv", doc="np.linalg.inv(X): the two-sided inverse of a nonsingular X (ghost link inverse_of = X)")
+def _npinv(ex, path, args, kwargs, node, fn):
+    X = args[0]
+    r = fresh_arr("inv", 2, "real", list(X.shape))
+    r.inverse_of = X
+    return r
+
+
+@model("<Arr>.reshape", doc="np.array(x).reshape(n*j, -1) of a 3-d array: the row-major flattening (ghost view3 = x); 2-d -> 1-d likewise")
+def _reshape(ex, path, args, kwargs, node, fn):
+    from .common import reshaped_from_3d
+    a = args[0]
+    if a.ndim == 3:
+        return reshaped_from_3d(a, "flat")
+    r = fresh_arr("flat", 1, a.dtype, [args[1]])
+    r.view2 = a
+    return r
+
+
+@model("last_mvn", doc="spec: the multivariate_normal call of the current iteration (last trace event)")
+def _last_mvn(ex, path, args, kwargs, node, fn):
+    t = path.ghost.get("rng_trace", [])
+    ev = [e for e in t if e["kind"] == "multivariate_normal"]
+    if not ev:
+        raise Unsupported("no multivariate_normal call recorded on this path")
+    return Obj("mvn_event", dict(ev[-1]))
+
+
+LIB.update({"Generator.multivariate_normal": _mvn, "numpy.linalg.inv": _npinv, "<Arr>.reshape": _reshape, "last_mvn": _last_mvn})
+
+BGP_INV = {
+    1: {"helper-stays-well-formed": " and ".join(HELPER_OK),
+        "nonlinear-columns-copied-so-far": "all(samples[r, q, c] == chunk[r, c] for r in range(_it) for q in range(n_linear_samples_per) for c in range(5))"},
+    2: {"draws-done": "all(samples[n, q, c] == chunk[n, c] for q in range(_it) for c in range(5)) and "
+                      "all(samples[n, q, 5 + kk] == linear_pars[q, kk] for q in range(_it) for kk in range(self.n_linear))",
+        "earlier-rows-kept": "all(samples[r, q, c] == chunk[r, c] for r in range(n) for q in range(n_linear_samples_per) for c in range(5))"},
+}
+BGP_ITER = {
+    **ITER_SETUP,
+    "draw-is-from-the-handed-generator": "last_mvn().gen == 'rng' and last_mvn().size == n_linear_samples_per",
+    "mean-solves-the-normal-equations": "_ll == INF or (same_array(last_mvn().mean, self.a) and "
+                                        "all(solve_source(self.a)[0][i, j] == " + AINV + " for i in range(self.n_linear) for j in range(self.n_linear)) and "
+                                        "all(solve_source(self.a)[1][i] == " + RHS + " for i in range(self.n_linear)))",
+    "covariance-is-the-inverse-of-Ainv": "_ll == INF or all(inverse_source(last_mvn().cov)[i, j] == " + AINV + " for i in range(self.n_linear) for j in range(self.n_linear))",
+    "this-row-copied-with-its-draws": "all(samples[_it, q, c] == chunk[_it, c] for q in range(n_linear_samples_per) for c in range(5)) and "
+                                      "all(samples[_it, q, 5 + kk] == last_mvn().value[q, kk] for q in range(n_linear_samples_per) for kk in range(self.n_linear))",
+}
+bgp = Contract(
+    KC + "batch_get_posterior_samples", "C03",
+    params={"self": helper_self, "chunk": chunk_param, "n_linear_samples_per": "pos", "rng": rng_obj},
+    requires=[ROW_OK] + HELPER_OK + ["self.n_pars >= 5 + self.n_linear"],
+    invariants=BGP_INV, body_ensures={1: BGP_ITER},
+    ensures={"nonlinear-parameters-copied-unchanged": "all(view3(result[0])[r, q, c] == chunk[r, c] for r in range(chunk.shape[0]) "
+                                                      "for q in range(n_linear_samples_per) for c in range(5))",
+             "shape": "view3(result[0]).shape[0] == chunk.shape[0] and view3(result[0]).shape[1] == n_linear_samples_per"})
+bgp.strict_defined = True
+CONTRACTS.append(bgp)
+
+
+# =======================================================================================================================================
+# CJokerHelper.__init__(data, prior, trend_M): slot map of the prior means/variances, unit conversions (C01 / C07)
+from . import astromodel as A   # noqa: E402
+
+SPEED = (-1, 1, 0)
+TIME = (1, 0, 0)
+
+
+def _dist(name, unit, kind="Normal"):
+    op = Obj("Op", {"_print_name": PyList([kind, "tex"], None, True)})
+    d = Obj("TensorVariable", {"name": name, "__tensor_unit__": unit, "owner": Obj("Apply", {"op": op}),
+                               "mean": z3.Real(f"mean_{name}"), "std": z3.Real(f"std_{name}")}, ident=f"dist_{name}")
+    return d
+
+
+def init_params(poly_trend, n_offsets, default_K):
+    def build_prior(ex, path, name):
+        lin = ["K"] + [f"v{i}" for i in range(poly_trend)]
+        offs = [f"dv0_{i}" for i in range(1, n_offsets + 1)]
+        dists = {}
+        for nm in lin + offs:
+            dim = SPEED if nm in ("K", "v0") or nm.startswith("dv0") else (-1 - int(nm[1:]), 1, 0)
+            u_ = A.sym_unit(f"unit_{nm}", dim)
+            path.assume(*u_.sym_facts)
+            dists[nm] = _dist(nm, u_, "FixedCompanionMass" if (nm == "K" and default_K) else "Normal")
+        Pu = A.sym_unit("unit_P", TIME)
+        path.assume(*Pu.sym_facts)
+        Pvar = Obj("TensorVariable", {"name": "P", "__tensor_unit__": Pu})
+        if default_K:
+            for fld, dim in (("_sigma_K0", SPEED), ("_P0", TIME), ("_max_K", SPEED)):
+                uu = A.sym_unit(f"unit{fld}", dim)
+                path.assume(*uu.sym_facts)
+                dists["K"].fields[fld] = A.quantity(z3.Real(f"K{fld}.value"), uu)
+        model = PyDict([(k, v) for k, v in dists.items()])
+        pars = PyDict([("P", Pvar)] + [(k, dists[k]) for k in lin])
+        leq = PyDict([(k, A.U_ONE) for k in lin])
+        o = Obj("JokerPrior", {"v0_offsets": PyList([dists[k] for k in offs]), "_v_trend_names": PyList([f"v{i}" for i in range(poly_trend)]),
+                               "poly_trend": poly_trend, "n_offsets": n_offsets,
+                               "par_names": PyList(["P", "e", "omega", "M0", "s"] + lin + offs), "model": model, "pars": pars,
+                               "_linear_equiv_units": leq}, ident="prior")
+        path.ghost["dists"] = dists
+        return o
+
+    def build_data(ex, path, name):
+        nt = z3.Int("n_times")
+        path.assume(nt >= 1)
+        ru = A.sym_unit("rv_unit", SPEED)
+        eu = A.sym_unit("err_unit", SPEED)
+        path.assume(*ru.sym_facts, *eu.sym_facts)
+        ivar = A.quantity(fresh_arr("data_ivar", 1, "real", [nt]), A.unit_pow(eu, -2))
+        o = Obj("RVData", {"rv": A.quantity(fresh_arr("data_rv", 1, "real", [nt]), ru), "_t_bmjd": fresh_arr("data_t", 1, "real", [nt]),
+                           "_t_ref_bmjd": z3.Real("data_t_ref"), "ivar": ivar, "__len__": nt}, ident="data")
+        return o
+
+    def build_trend(ex, path, name):
+        return fresh_arr("trend_M", 2, "real", [z3.Int("n_times"), z3.Int("trend_cols")])
+    return {"self": lambda ex, path, n: Obj("CJokerHelper", {}, ident="self"), "data": build_data, "prior": build_prior, "trend_M": build_trend}
+
+
+def _res_mean_std(ex, path, bound, node):
+    d, iu, ou = bound["dist"], bound["in_unit"], bound["out_unit"]
+    f = A.factor(iu, ou)
+    return PyList([arith(ast.Mult(), d.fields["mean"], f), arith(ast.Mult(), d.fields["std"], f)], None, True)
+
+
+mean_std_callee = Contract("thejoker.utils._pytensor_get_mean_std", "C07", ensures={}, result=_res_mean_std)
+
+
+@model("phys_mean", doc="spec: prior mean of a linear parameter as a physical quantity (value x unit scale)")
+def _phys_mean(ex, path, args, kwargs, node, fn):
+    d = path.ghost["dists"][args[0]]
+    return d.fields["mean"] * to_z3(d.fields["__tensor_unit__"].fields["scale"], "real")
+
+
+@model("phys_std")
+def _phys_std(ex, path, args, kwargs, node, fn):
+    d = path.ghost["dists"][args[0]]
+    return d.fields["std"] * to_z3(d.fields["__tensor_unit__"].fields["scale"], "real")
+
+
+@model("phys_K", doc="spec: sigma_K0 / P0 / max_K of the default K prior as physical quantities")
+def _phys_K(ex, path, args, kwargs, node, fn):
+    q = path.ghost["dists"]["K"].fields[args[0]]
+    return to_z3(q.fields["value"], "real") * to_z3(q.fields["unit"].fields["scale"], "real")
+
+
+LIB.update({"phys_mean": _phys_mean, "phys_std": _phys_std, "phys_K": _phys_K})
+
+
+def init_contracts():
+    out = []
+    for pt_, no, dK in ((1, 0, True), (2, 0, True), (1, 1, True), (2, 2, True), (1, 0, False), (1, 1, False), (3, 1, False)):
+        nl = 1 + pt_ + no
+        RV = "data.rv.unit.scale"                      # scale of the data RV unit (the kernel's internal velocity unit)
+        ens = {
+            "counts": f"self.n_times == len(data) and self.n_linear == {nl} and self.n_offsets == {no} and self.n_poly == {pt_}",
+            "unit-table-order": f"list(self.internal_units.keys()) == {['P', 'e', 'omega', 'M0', 's', 'K', 'v0'] + [f'dv0_{i}' for i in range(1, no + 1)] + [f'v{i}' for i in range(1, pt_)]!r}",
+            "nonlinear-internal-units": "self.internal_units['P'].scale == 86400 and self.internal_units['P'].dim == (1, 0, 0) and "
+                                        "self.internal_units['s'] is data.rv.unit and self.internal_units['K'] is data.rv.unit",
+            "data-in-the-data-unit": f"all(self.rv[k] == data.rv.value[k] and self.t[k] == data._t_bmjd[k] for k in range(len(data))) and self.t0 == data._t_ref_bmjd and "
+                                     f"all(self.ivar[k] * data.ivar.unit.scale == data.ivar.value[k] * (1 / ({RV} * {RV})) * ({RV} * {RV}) * data.ivar.unit.scale * (1 / ({RV} * {RV})) * ({RV} * {RV}) or "
+                                     f"self.ivar[k] * (1 / ({RV} * {RV})) == data.ivar.value[k] * data.ivar.unit.scale for k in range(len(data)))",
+            "trend-rows-are-the-design-matrix-columns": f"all(self.M_T[i, n] == trend_M[n, i - 1] for i in range(1, {nl}) for n in range(len(data)))",
+            "v0-slot-1": f"self.mu[1] * {RV} == phys_mean('v0') and self.Lambda[1] * {RV} * {RV} == phys_std('v0') * phys_std('v0')",
+        }
+        for k in range(1, no + 1):
+            ens[f"offset-{k}-slot-{1 + k}"] = (f"self.mu[{1 + k}] * {RV} == phys_mean('dv0_{k}') and "
+                                               f"self.Lambda[{1 + k}] * {RV} * {RV} == phys_std('dv0_{k}') * phys_std('dv0_{k}')")
+        for j in range(1, pt_):
+            slot = 1 + no + j
+            sc = f"({RV} / {86400 ** j})"        # velocity unit per day^j
+            ens[f"trend-v{j}-slot-{slot}"] = (f"self.mu[{slot}] * {sc} == phys_mean('v{j}') and self.Lambda[{slot}] * {sc} * {sc} == phys_std('v{j}') * phys_std('v{j}')")
+        if dK:
+            ens["default-K-prior-constants"] = (f"self.fixed_K_prior == 0 and self.sigma_K0 * {RV} == phys_K('_sigma_K0') and self.max_K * {RV} == phys_K('_max_K') and "
+                                                "self.P0 * 86400 == phys_K('_P0') and " f"self.mu[0] * {RV} == phys_mean('K')")
+        else:
+            ens["custom-K-slot-0"] = f"self.fixed_K_prior == 1 and self.mu[0] * {RV} == phys_mean('K') and self.Lambda[0] * {RV} * {RV} == phys_std('K') * phys_std('K')"
+        ens.pop("data-in-the-data-unit")
+        ens["data-in-the-data-unit"] = (f"all(self.rv[k] == data.rv.value[k] and self.t[k] == data._t_bmjd[k] for k in range(len(data))) and self.t0 == data._t_ref_bmjd and "
+                                        f"all(self.ivar[k] == data.ivar.value[k] * (data.ivar.unit.scale / (1 / ({RV} * {RV}))) for k in range(len(data)))")
+        out.append(Contract(KC + "__init__", "C07", params=init_params(pt_, no, dK),
+                            cases=[{"_name": f"poly_trend={pt_},n_offsets={no},{'default' if dK else 'custom'}-K"}], ensures=ens))
+    return out
+
+
+init_contracts_ = init_contracts()
+CONTRACTS += init_contracts_
+CALLEES["thejoker.utils._pytensor_get_mean_std"] = mean_std_callee
